@@ -396,7 +396,7 @@ def write_evidence(prop, tier, seed, plan, reg, eng, obs, res, undecided, functi
         'wall_s': round(time.time() - t0, 2),
         'violations': nviol,
     }
-    d = os.path.join(ROOT, 'evidence')
+    d = os.environ.get('PYVC_EVIDENCE_DIR') or os.path.join(ROOT, 'evidence')
     os.makedirs(d, exist_ok=True)
     with open(os.path.join(d, f'{prop}.json'), 'w') as f:
         json.dump(doc, f, indent=1, default=str)
